@@ -30,15 +30,15 @@ class SgzCropper(SgzReader):
 
         err_string = "{} bounds out of range. Expected range within [{},{}], but got ({},{})."
 
-        if iline_index_range[0] < 0 or iline_index_range[1] > len(self.ilines):
+        if not 0 <= iline_index_range[0] < iline_index_range[1] <= len(self.ilines):
             print(err_string.format("Inline", 0, len(self.ilines), *iline_index_range))
             valid_bounds = False
 
-        if xline_index_range[0] < 0 or xline_index_range[1] > len(self.xlines):
+        if not 0 <= xline_index_range[0] < xline_index_range[1] <= len(self.xlines):
             print(err_string.format("Crossline", 0, len(self.xlines), *xline_index_range))
             valid_bounds = False
 
-        if zslices_index_range[0] < 0 or zslices_index_range[1] > len(self.zslices):
+        if not 0 <= zslices_index_range[0] < zslices_index_range[1] <= len(self.zslices):
             print(err_string.format("Zslice", 0, len(self.zslices), *zslices_index_range))
             valid_bounds = False
 
